@@ -52,6 +52,16 @@ CLAIMED["C11"] = (
     "TLC/SANY; abstract limits 4 are mapped to MAX_ROW_COUNT/MAX_COL_COUNT; lower-case A1 not judged; the local effect of a touch (style "
     "name, border, formatted value at the addressed cell, no other cell changed) is observed by the driver and judged as a logged field",
     "DESIGN.md §4 C11")
+CLAIMED["C19"] = (
+    "TLC model checking of Workbook.tla (collection layer) and Collections.tla (index arithmetic); replay of every bounded TLC history of "
+    "add_sheet/add_table/rename/save/open with exhaustive lookup probes after every call, judged by TLC (Trace_Workbook); fixtures' collections probed",
+    "Workbook.tla specifies sheets and tables as name sequences with case folding: an explicit duplicate is a refusal, automatic names are the "
+    "first unused 'Table k', lookups by index/name/membership are functions of the state. TLC checks AddKeepsUnique and AutoNameFresh on all "
+    "histories to the bound; every maximal bounded history (and -simulate histories up to 6x6) is replayed into the library and after every call "
+    "every index in [-2n,2n] and every name token (case variants, generated-looking, empty, non-ASCII) is looked up in every collection; TLC "
+    "validates each recorded trace, including after save/reopen.",
+    "TLC/SANY; name tokens instantiated with fixed concrete strings; Python str.lower() as the meaning of 'ignoring case'",
+    "DESIGN.md §4 C19")
 NOT_YET = "check not built yet in this round (planned: see DESIGN.md section for this property)"
 NA = {}
 
